@@ -146,6 +146,15 @@ def verify(code=None, filename=DEFAULT_STUDENT_FILENAME, report=MAIN_REPORT,
                      sys.exc_info(), report=report, muted=muted, enhance=enhance)
         report[TOOL_NAME]['success'] = False
         report[TOOL_NAME]['ast'] = ast.parse("")
+    except (ValueError, MemoryError, RecursionError) as e:
+        # The parser could not process the text at all (a lone surrogate
+        # cannot be encoded, nesting too deep for the parser's stack)
+        unparsable = SyntaxError(str(e))
+        syntax_error(None, filename, code, None, unparsable,
+                     (SyntaxError, unparsable, e.__traceback__),
+                     report=report, muted=muted, enhance=enhance)
+        report[TOOL_NAME]['success'] = False
+        report[TOOL_NAME]['ast'] = ast.parse("")
     else:
         report[TOOL_NAME]['success'] = True
     return report[TOOL_NAME]['success']
